@@ -249,8 +249,10 @@ def report(prop, tier, seed, eng, results, tmpdir):
         if hit:
             print("KNOWN-FINDING: property=%s %s" % (prop, hit[0]))
             continue
-        run = eng.rebuild_run(seed, tier, r["index"], tmpdir) if "run" not in r else r["run"]
+        run = v.get("run") or r.get("run") or eng.rebuild_run(seed, tier, r["index"], tmpdir)
+        v = {k: x for k, x in v.items() if k != "run"}
         small, sv, n_exec = minimise(eng, run, v, tmpdir)
+        sv = {k: x for k, x in sv.items() if k != "run"}
         res = eng.execute_run(small, tmpdir)
         doc = {
             "property": prop,
